@@ -1,8 +1,190 @@
 import CM.Lib.Wire
-/-! Driver handler for C03 (stub: not built yet). -/
-namespace CM.Drv.C03
-open CM.Wire
+import CM.Model.Cache
+import CM.Model.Lookup
+import CM.Proofs.Lookup
+/-!
+Driver handler for C03.
 
-def handle (_args _impl : List String) : String := bad
+Request: `look <cap> <state> <now> <views> <defRaw> <defNorm> <fbRaw> <fbNorm> <sniRaw> <sniNorm>
+          <conn> <idna> <stored> => <getCertificateFromCache> <GetCertificate>`
+  state   the implementation's two maps, rendered as for C12 (names: plain, `-` = empty,
+          `~<hex runes>` for anything outside [a-z0-9.*:-])
+  views   `hash:supported:notBefore:notAfter:complete,…` (real `hello.SupportsCertificate`)
+  raw/norm  hex runes of the configured / requested name and of Go's `normalizedName` of it
+          (`~` = option unset); the model normalises ASCII input itself
+  conn    hex runes of `localIPFromConn(hello.Conn)`, `~` = nil Conn
+  idna    hex runes of `idna.Lookup.ToASCII(TrimSpace(ServerName))`, `!` = error
+  stored  `name=cert;…` managed bundles in storage
+  impl    `m:<hash>|d:<hash>|none` then `err | empty | panic | ok <hash> <chain 0/1> <key 0/1>`
+Answer: the model's two results | the executable specification's verdict on the
+IMPLEMENTATION's answer | branch tag.
+-/
+namespace CM.Drv.C03
+open CM.Wire CM.Cache CM.Lookup
+
+def dash (s : String) : String := if s = "-" then "" else s
+def optList (s : String) (sep : String) : List String := if s = "-" then [] else s.splitOn sep
+
+def decName (t : String) : Name :=
+  if t = "-" then [] else
+  match t.toList with
+  | '~' :: r => (decStr (String.ofList r)).getD []
+  | l => l
+
+def parseCertFields : List String → Option Cert
+  | [h, ns, ts, m, iss, ari] =>
+    ari.toNat?.map fun a =>
+      { hash := dash h, names := (optList ns ",").map decName, tags := optList ts ",",
+        managed := m = "1", issuer := dash iss, ari := a }
+  | _ => none
+
+def parseState (cap : Nat) (t : String) : Option State :=
+  match t.splitOn "#" with
+  | [cs, is] =>
+    let centries := (optList cs ";").map fun e =>
+      match e.splitOn "/" with
+      | k :: rest => (parseCertFields rest).map fun c => (dash k, c)
+      | [] => none
+    let ientries := (optList is ";").map fun e =>
+      match e.splitOn "=" with
+      | [n, hs] => some (decName n, (optList hs ",").map dash)
+      | _ => none
+    if centries.all Option.isSome && ientries.all Option.isSome then
+      some { cache := centries.filterMap id, index := ientries.filterMap id, cap := cap }
+    else none
+  | _ => none
+
+def parseViews (t : String) : Option (List (Hash × View)) :=
+  let vs := (optList t ",").map fun e =>
+    match e.splitOn ":" with
+    | [h, sup, nb, na, cpl] =>
+      match nb.toInt?, na.toInt? with
+      | some nb, some na => some (h, ({ supported := sup = "1", nb := nb, na := na, complete := cpl = "1" } : View))
+      | _, _ => none
+    | _ => none
+  if vs.all Option.isSome then some (vs.filterMap id) else none
+
+def parseStored (t : String) : Option (List (Name × Cert)) :=
+  let vs := (optList t ";").map fun e =>
+    match e.splitOn "=" with
+    | [n, c] => (parseCertFields (c.splitOn "/")).map fun c => (decName n, c)
+    | _ => none
+  if vs.all Option.isSome then some (vs.filterMap id) else none
+
+/-- the normalised name: the model's own for ASCII input, Go's otherwise; `none` if the two
+disagree on ASCII input -/
+def normOf (rawTok normTok : String) : Option Name :=
+  match decStr rawTok, decStr normTok with
+  | some raw, some norm =>
+    if raw.all (fun c => c.toNat < 128) then
+      if normASCII raw = norm then some norm else none
+    else some norm
+  | _, _ => none
+
+def listing (s : State) (n : Name) : List Cert := (s.cache.map (·.2)).filter (fun c => c.names.contains n)
+
+def coversB (n : Name) (names : List Name) : Bool := (n :: candidates n).any (fun w => names.contains w)
+
+def showAns (e : Env) : Ans → String
+  | .err => "err"
+  | .ok c => "ok " ++ c.hash ++ " 1 " ++ (if (e.view c.hash).complete then "1" else "0")
+
+def showFC : Option (Cert × How) → String
+  | some (c, .matched) => "m:" ++ c.hash
+  | some (c, .defaulted) => "d:" ++ c.hash
+  | none => "none"
+
+/-- the executable specification, judging the implementation's answer on the
+implementation's cache content (cached certificates are read from the cache map, not through
+the index; `covers` is decided by `coversB`, see `covers_iff_candidates`) -/
+def judge (e : Env) (cfg : Cfg) (s : State) (h : Hello) (r : Req) : List String → String
+  | ["err"] =>
+    let keys := if h.sni = [] then h.conn.toList else h.sni :: candidates h.sni
+    if keys.any (fun k => !(listing s k).isEmpty) then "bad:error-despite-covering-certificate" else "ok"
+  | ["empty"] => "bad:empty-certificate-nil-error"
+  | ["panic"] => "bad:panic"
+  | ["ok", hash, chain, key] =>
+    if chain ≠ "1" || key ≠ "1" then "bad:incomplete-certificate" else
+    let cached := get? hash s.cache
+    match (match cached with
+           | some c => some c
+           | none => (r.stored.find? (fun (p : Name × Cert) => p.2.hash = hash)).map (fun (p : Name × Cert) => p.2)) with
+    | none => "bad:certificate-neither-cached-nor-stored"
+    | some c =>
+      let lists (o : Option Name) : Bool := match o with
+        | some n => c.names.contains n
+        | none => false
+      let just := (h.sni ≠ [] && coversB h.sni c.names) || (h.sni = [] && lists h.conn) ||
+        (h.sni = [] && lists cfg.defaultName) || lists cfg.fallbackName
+      let stor := almostFull s && (match requestName cfg h r with
+        | some nm => qualifies nm && loadStored r.stored nm == some c
+        | none => false)
+      if !(just || stor) then "bad:certificate-does-not-cover-name"
+      else if h.sni ≠ [] && !(listing s h.sni).isEmpty && !c.names.contains h.sni then "bad:exact-match-not-preferred"
+      else if h.sni = [] && (match h.conn with
+          | some ip => !(listing s ip).isEmpty && !c.names.contains ip
+          | none => false) then "bad:local-ip-not-preferred"
+      else
+        match (keysTried cfg h).find? (fun k => !(listing s k).isEmpty) with
+        | some k =>
+          if cached.isSome && (listing s k).any e.good && !e.good c then "bad:valid-supported-certificate-not-preferred"
+          else "ok"
+        | none => "ok"
+  | _ => "bad:unparsable-answer"
+
+def handle (args impl : List String) : String :=
+  match args with
+  | ["look", cap, st, now, views, defRaw, defNorm, fbRaw, fbNorm, sniRaw, sniNorm, conn, idna, stored] =>
+    match cap.toNat?, now.toInt?, parseViews views, parseStored stored with
+    | some cap, some now, some views, some stored =>
+      match parseState cap st with
+      | none => bad
+      | some s =>
+        let optName (rawTok normTok : String) : Option (Option Name) :=
+          if rawTok = "~" then some none else (normOf rawTok normTok).map some
+        match optName defRaw defNorm, optName fbRaw fbNorm, normOf sniRaw sniNorm with
+        | some d, some f, some sni =>
+          let e : Env := { now := now, view := fun h => (get? h views).getD { supported := false, nb := 0, na := 0, complete := false } }
+          let cfg : Cfg := { defaultName := d, fallbackName := f }
+          let h : Hello := { sni := sni, conn := if conn = "~" then none else decStr conn }
+          let r : Req := { idna := if idna = "!" then none else decStr idna, stored := stored }
+          let fc := fromCache e cfg s h
+          let ans := getCert e cfg s h r
+          let model := showFC fc ++ " " ++ showAns e ans
+          let spec :=
+            if (invCheck s).isSome then "bad:cache-invariant-broken"
+            else match impl with
+              | _ :: rest => judge e cfg s h r rest
+              | [] => "-"
+          let tag :=
+            (match fc with
+             | some (c, .matched) => if h.sni = [] then "I" else if c.names.contains h.sni then "X" else "W"
+             | some (_, .defaulted) => "D"
+             | none => "N") ++
+            (match ans, fc with
+             | .err, _ => (if r.idna.isNone then "i" else if (requestName cfg h r).any (fun n => !qualifies n) then "q" else "e")
+             | .ok c, some (c', _) => if c = c' then (if e.good c then "g" else "b") else "s"
+             | .ok _, none => "s") ++
+            (if almostFull s then "a" else "") ++
+            (if (keysTried cfg h).any (fun k => (listing s k).length > 1) then "m" else "")
+          reply model spec tag
+        | _, _, _ => reply "normalisation-differs" "-" "!"
+    | _, _, _, _ => bad
+  | ["mw", subj, wild] =>
+    -- the real MatchWildcard against its model and against the reference relation
+    match decStr subj, decStr wild with
+    | some n, some w =>
+      if !(n.all (fun c => c.toNat < 128) && w.all (fun c => c.toNat < 128)) then reply "*" "-" "" else
+      let n := n.map lowerASCII
+      let w := w.map lowerASCII
+      let m := matchWildcard n w
+      let ref := n == w || (candidates n).contains w
+      let noEmpty := (splitDot n).all (fun l => !l.isEmpty)
+      let spec := match impl with
+        | [o] => if !noEmpty then "-" else if (o = "1") = ref then "ok" else "bad:matchwildcard-differs-from-covers"
+        | _ => "-"
+      reply (if m then "1" else "0") spec ((if m then "M" else "n") ++ (if noEmpty then "" else "e"))
+    | _, _ => bad
+  | _ => bad
 
 end CM.Drv.C03
